@@ -315,6 +315,7 @@ func cmdCheck(args []string) int {
 		if *tier == "thorough" {
 			ex.MaxViolations = 60
 			ex.Deadline = time.Now().Add(75 * time.Minute)
+			ex.PathCap = 1500000
 		}
 		if solver == "z3" {
 			// portfolio: z3 first with a short budget, cvc5 for what it gives up on
@@ -332,6 +333,9 @@ func cmdCheck(args []string) int {
 			st.Paths > st.Vacuous
 		for _, k := range ex.SortedKeys(ex.Unsupp) {
 			rep.Incomplete = append(rep.Incomplete, fmt.Sprintf("%s (x%d)", k, ex.Unsupp[k]))
+		}
+		if st.Inconclusive > 0 {
+			rep.Incomplete = append(rep.Incomplete, fmt.Sprintf("%d solver queries answered unknown within the time limit (feasibility: both branches were kept; obligations: counted as not discharged)", st.Inconclusive))
 		}
 		if ex.StoppedEarly {
 			rep.Exhaustive = false
